@@ -803,6 +803,11 @@ def _variant(rng, temps):
     m = rng.choice(['get_CpoR', 'get_HoRT', 'get_SoR', 'get_SoR', 'get_GoRT',
                     'get_GoRT', 'get_H', 'get_S', 'get_G', 'get_Cp'])
     v = {'m': m, 'T': rng.choice(temps)}
+    if rng.random() < 0.12:
+        # a hair beside a temperature that is (likely to be) evaluated as
+        # well: next to a tabulated point, just inside or just outside an
+        # end of the valid range
+        v['T'] = v['T'] + rng.choice([1e-7, -1e-7, 4e-7, -4e-7, 1e-9])
     if m in ('get_SoR', 'get_GoRT', 'get_S', 'get_G'):
         v['S_el'] = rng.choice([None, False, True, True])
     if m in ('get_H', 'get_G'):
@@ -1109,6 +1114,28 @@ def fixed_histories():
         variants.append({'m': 'get_S', 'T': T, 'unit': 'J/mol/K'})
         variants.append({'m': 'get_H', 'T': T, 'unit': 'kcal/mol'})
     out = []
+    # the same quantity at a temperature and a hair beside it, in both
+    # orders, at tabulated points and at both ends of the valid range
+    for lib, mol in (('BensonGA', 'CCCCCC'), ('GRWSurface2018', '[Pt]CC'),
+                     ('FixA', 'CCO')):
+        ops = [{'op': 'load', 'client': 0, 'slot': 0, 'lib': lib,
+                'how': 'name'},
+               {'op': 'decompose', 'client': 0, 'slot': 0, 'mol': mol,
+                'out': 'd0'},
+               {'op': 'estimate', 'client': 0, 'slot': 0, 'from': 'd0',
+                'out': 'e0'},
+               {'op': 'estimate', 'client': 0, 'slot': 0, 'from': 'd0',
+                'out': 'e1'}]
+        for base in (100.0, 298.15, 300.0, 500.0, 1000.0, 1500.0, 2000.0):
+            for m in ('get_SoR', 'get_HoRT', 'get_CpoR'):
+                for est, seq in (('e0', (0.0, 1e-7, -1e-7)),
+                                 ('e1', (4e-7, 0.0, -4e-7))):
+                    for d in seq:
+                        ops.append({'op': 'evaluate', 'client': 0, 'est': est,
+                                    'v': {'m': m, 'T': base + d}})
+        out.append({'property': PROP, 'run_seed': 'fixed-neighbours-%s' % lib,
+                    'config': {'clients': 1, 'libs': [lib],
+                               'fault_kinds': []}, 'ops': ops})
     for a, b, mol in pairs:
         ops = [{'op': 'load', 'client': 0, 'slot': 0, 'lib': a, 'how': 'name'},
                {'op': 'load', 'client': 1, 'slot': 1, 'lib': b, 'how': 'name'},
